@@ -51,7 +51,7 @@ def run(tier, seed):
     T = tier == "thorough"
     o.rule = ("decode: every string of up to %d symbols over {\\n, a, é (2 bytes), {} with every partition into read chunks (all cut sets when <= %d, random beyond), and real JSON-RPC "
               "message streams under random partitions down to 1-byte reads; encode: message lists; driver: the real Builder/PluginDriver in-process on duplex pipes of capacity 1..64 bytes, "
-              "1-8 concurrent hook requests (numeric and string ids, UTF-8 in ids and params), request stream written in adversarial chunks, handlers released in every/random completion order, "
+              "1-8 concurrent hook requests (numeric and string ids, UTF-8 in ids and params), request stream written in adversarial chunks, handlers released in every/random completion order, or 6-15 of them finishing in one burst, "
               "a failing handler, interleaved notifications; and scenarios with the plugin's real log writer sharing the output (handlers emit log lines of 10-3000 bytes), replies of up to 20 kB, "
               "and a node that stops reading the plugin's output while further requests arrive (busy writer, back-pressure), one process per scenario. Non-trivial: at least one complete frame (decode) / at least two requests (driver); distinct = distinct chunk list or scenario") % (6 if T else 5, 64 if T else 16)
     o.assumptions = ["serde_json never emits a raw newline; FramedWrite::send under the output mutex writes message and separator together; tokio's scheduling of handler tasks: exercised, not proved",
@@ -80,7 +80,7 @@ def run(tier, seed):
         # ---- driver
         dcases = []
         for k in range(120 if T else 30):
-            n = 1 + r.below(8) if k else 3
+            n = (1 + r.below(8) if k else 3) if k % 5 != 4 else 6 + r.below(10)
             reqs, tags = [], []
             for i in range(n):
                 rid = i if r.chance(1, 2) else "id-%d-é" % i
@@ -92,6 +92,10 @@ def run(tier, seed):
             # a random completion order, sometimes only a prefix is controlled
             for i in range(n - 1, 0, -1):
                 j = r.below(i + 1); order[i], order[j] = order[j], order[i]
+            if k % 5 == 4:
+                # a burst: only a short prefix is released one by one, all the other handlers finish in the same scheduler pass
+                # (more completions at once than the reply channel holds)
+                order = order[:r.below(3)]
             dcases.append({"cap": r.choice([1, 2, 3, 5, 7, 16, 64]), "requests": reqs, "chunks": [r.choice([1, 2, 3, 5, 8, 13, 100]) for _ in range(5)], "complete_order": order, "_n": n})
         # ---- driver with the REAL log writer sharing the output, and a node that stops reading for a while (busy writer / back-pressure)
         lcases = []
